@@ -133,10 +133,21 @@ func deferredOnError(cl *ssa.Function, at ssa.Instruction) bool {
 		return false
 	}
 	entry := cl.Blocks[0]
-	bo := entry.Instrs[len(entry.Instrs)-1].(*ssa.If).Cond.(*ssa.BinOp)
 	nonNilSucc := entry.Succs[0]
-	if bo.Op == token.EQL {
-		nonNilSucc = entry.Succs[1]
+	flagGuard := false
+	switch cond := entry.Instrs[len(entry.Instrs)-1].(*ssa.If).Cond.(type) {
+	case *ssa.BinOp:
+		if cond.Op == token.EQL {
+			nonNilSucc = entry.Succs[1]
+		}
+	case *ssa.UnOp:
+		// a flag guard: `if !done { cleanup }` / `if done {} else { cleanup }`
+		flagGuard = true
+		if cond.Op != token.NOT {
+			nonNilSucc = entry.Succs[1]
+		}
+	default:
+		return false
 	}
 	if len(nonNilSucc.Preds) != 1 || !(nonNilSucc == at.Block() || nonNilSucc.Dominates(at.Block())) {
 		return false
@@ -161,6 +172,15 @@ func deferredOnError(cl *ssa.Function, at ssa.Instruction) bool {
 		return false
 	}
 	for _, ret := range returnsOf(par) {
+		if flagGuard {
+			// the cleanup runs at the exits where the flag is not set: those must report an error
+			if guardStateAt(cell, ret.Block()) == isNil {
+				continue
+			}
+			if _, ns := errorOfReturn(ret); ns == nonNil {
+				continue
+			}
+		}
 		if u, ok := ret.Results[idx].(*ssa.UnOp); ok && u.Op == token.MUL && u.X == ssa.Value(cell) {
 			continue // the named result itself
 		}
